@@ -74,6 +74,9 @@ def seeded():
            'was run with `git -C /repo apply <patch>` … `git -C /repo checkout -- .` on /repo itself. Where a change was missed, or reported '
            'without a concrete input, the check was strengthened and the row says so.\n',
            '| seeded id | breaks | needs, in order to manifest | caught by | how |', '|---|---|---|---|---|']
+    out.insert(1, 'Final pass (all 60 changes against the final checks, `seeded/FINAL_PASS.txt`): 60/60 reported with exit 1 and at least one VIOLATION line '
+                  'carrying a concrete failing input (none with `no-failing-input-found`); 16 of them were also run on /repo itself '
+                  '(`git -C /repo apply` … `git -C /repo checkout -- .`) with the same outcome.\n')
     for m in rows:
         out.append(f"| {m['id']} | {m['property']} | {m['needs'].replace('|','/')} | {m.get('caught_by','?')} | {m.get('how','').replace('|','/')} |")
     return '\n'.join(out)
